@@ -14,7 +14,7 @@ from common import REPO, run_model, Scratch
 
 ALGS = ['no', 'inf', 'lfu', 'lru', 'mru', 'rr']
 ALG_ID = {a: i for i, a in enumerate(ALGS)}
-BACKENDS = ['plain', 'dict0', 'null', 'dictarch', 'file', 'dir', 'sql',
+BACKENDS = ['plain', 'dict0', 'null', 'dictarch', 'file', 'file-json', 'dir', 'sql',
             'direct-dict', 'direct-file', 'direct-dir']
 KEYMAPS = ['hash', 'raw', 'str', 'pickle', 'md5', 'raw-nf', 'str-nf', 'hash-typed', 'default', 'md5-typed', 'pickle-std', 'raw-typed']
 UNHASH = 'U'      # an unhashable argument ([1, 2])
@@ -58,6 +58,8 @@ def _realcall(a):
         kind = a[0]
         if kind == 'f':
             return (FLOATS[a[1] % len(FLOATS)],), {}
+        if kind == 'ft':     # floats nested one level down (only deep rounding reaches them)
+            return ((FLOATS[a[1] % len(FLOATS)], 5),), {}
         if kind == 's':
             return (str(a[1]),), {}
         if kind == 't':      # equal values, different types, different ways of writing the call
@@ -70,8 +72,13 @@ def tcode(v):
     return {bool: 1, int: 2, float: 3}.get(type(v), 4)
 
 
-def G(x, y, tol=None, none_arg=None, typed=False):
+def G(x, y, tol=None, none_arg=None, typed=False, deep=False):
     """the deterministic function being memoized, as a function of the values it receives"""
+    if isinstance(x, tuple):
+        v = x[0]
+        if tol is not None and deep:
+            v = round(v, tol)
+        return 70000 + int(round(v, 6) * 1000)
     if isinstance(x, list):
         return 777 if all(isinstance(t, int) for t in x) else 779
     if x is _UNENC_OBJ:
@@ -95,7 +102,7 @@ def g_cfg(cfg, a):
     (args, kwds) = realcall(a, cfg)
     x = args[0] if args else kwds.get('x')
     y = args[1] if len(args) > 1 else kwds.get('y', 0)
-    return G(x, y, cfg.get('tol'), cfg.get('none_arg'), 'typed' in cfg.get('keymap', ''))
+    return G(x, y, cfg.get('tol'), cfg.get('none_arg'), 'typed' in cfg.get('keymap', ''), bool(cfg.get('deep')))
 
 
 def g(a):
@@ -171,6 +178,8 @@ def make_cache(backend, scratch):
         return ar.dict_archive('d', cached=True), False
     if backend == 'file':
         return ar.file_archive(scratch.new('.pkl'), cached=True), False
+    if backend == 'file-json':
+        return ar.file_archive(scratch.new('.json'), cached=True, protocol='json'), False
     if backend == 'dir':
         return ar.dir_archive(scratch.new('.dir'), cached=True), False
     if backend == 'sql':
@@ -198,6 +207,7 @@ class Impl:
         tol = cfg.get('tol')
         none_arg = cfg.get('none_arg')
         typed = 'typed' in cfg.get('keymap', '')
+        deep_flag = bool(cfg.get('deep'))
         received = self.received = []
 
         def body(x, y):
@@ -206,7 +216,7 @@ class Impl:
             code = _code_of(x, y)
             if code in raising:
                 raise UserError(code)
-            return G(x, y, tol, none_arg, typed)
+            return G(x, y, tol, none_arg, typed, deep_flag)
 
         if cfg.get('stub') == 'var':
             def stub(*a):
